@@ -215,6 +215,8 @@ def implied(test: ast.AST, pol: bool) -> List[Tuple[ast.AST, bool]]:
         elif isinstance(t, ast.BoolOp) and isinstance(t.op, ast.Or) and not p:
             for v in t.values:
                 go(v, False)
+        elif isinstance(t, ast.Call) and isinstance(t.func, ast.Name) and t.func.id == "bool" and len(t.args) == 1 and not t.keywords:
+            go(t.args[0], p)
         elif isinstance(t, ast.IfExp) and p and is_falsy_const(t.orelse):
             go(t.test, True)
             go(t.body, True)
@@ -445,6 +447,28 @@ class Path:
                         changed = True
                     collect(undecided[0], want)
         self._facts = out
+        self._pending = pending
+        return out
+
+    def fact_cases(self, limit: int = 64) -> List[List[Tuple[ast.AST, bool]]]:
+        """Case split over the disjunctive residue of the path condition (`not (A and B)` = not A or
+        not B): one fact list per way of satisfying every residual clause. A predicate that must hold on
+        the path has to hold in every case."""
+        base = self.facts()
+        pending = getattr(self, "_pending", [])
+        if not pending:
+            return [base]
+        import itertools
+
+        combos = list(itertools.islice(itertools.product(*[[(v, want) for v in values] for values, want in pending]), limit + 1))
+        if len(combos) > limit:
+            return [base]
+        out = []
+        for combo in combos:
+            facts = list(base)
+            for v, want in combo:
+                facts.extend(implied(v, want))
+            out.append(facts)
         return out
 
     def has_marker(self, pol: str) -> bool:
